@@ -1,6 +1,6 @@
 (* C14 - every object lifecycle releases exactly what it allocated.  Statements only.
    All theorems quantify over EVERY failure schedule sc as well, so they also serve C15. *)
-From LW Require Import Base.Bytes Spec.TagSpec Model.Tags Gen.Consts Model.Radiotap Model.Frame Model.Alloc Model.AllocScen
+From LW Require Import Base.Bytes Spec.TagSpec Model.Tags Gen.Consts Gen.Layout Model.Radiotap Model.Frame Model.Alloc Model.AllocScen
   Proofs.RadiotapProofs Proofs.AllocProofs.
 Local Open Scope Z_scope.
 
@@ -51,3 +51,11 @@ Proof.
   intros info ->. pose proof (rt_length buf rd info Hwf Hag Ho) as [_ [Hb _]]. lia.
 Qed.
 Print Assumptions c14_parse_pipeline.
+
+(* the skeletons decide "first tag or not" and the block sizes from lengths kept in Z: faithful only while the C fields
+   that hold them (tag-list length, frame length, header length) are as wide as size_t and cannot wrap *)
+Theorem c14_length_fields_wide :
+  fsz_libwifi_tagged_parameters__length = host_sizeof_size_t /\ fsz_libwifi_frame__len = host_sizeof_size_t /\
+  fsz_libwifi_frame__header_len = host_sizeof_size_t /\ 8 <= host_sizeof_size_t.
+Proof. repeat split; try reflexivity; try (vm_compute; discriminate). Qed.
+Print Assumptions c14_length_fields_wide.
